@@ -115,7 +115,10 @@ class Runtime {
         // as the runtime: a dynamic listener replaces the previous dynamic listener of that event name,
         // static listeners are simply added
         if (isDynamic) {
-          set(N, 'v', evName + ':dyn', { v, final, mutated, capture, isDynamic, lv: generalPath })
+          // (listeners registered with different options do not replace each other: removeListener is
+          // called with the new options)
+          const opt = (final ? 'f' : '') + (mutated ? 'm' : '') + (capture ? 'c' : '')
+          set(N, 'v', evName + ':dyn' + opt, { v, final, mutated, capture, isDynamic, lv: generalPath })
         } else if (N) {
           if (!N.attrs) N.attrs = []
           N.attrs.push(['v:' + evName + ':static', { v, final, mutated, capture, isDynamic, lv: generalPath }])
@@ -151,7 +154,8 @@ class Runtime {
       (branchKey, branchFunc) => {
         self.rec('B', [branchKey])
         const n = mkNode('if', { key: branchKey })
-        n.children = self.createChildren(branchFunc, slotValues)
+        // as the runtime: nested define-children functions are called without slot values
+        n.children = self.createChildren(branchFunc, undefined)
         out.push(n)
       },
       (list, key, listU, lvaluePath, itemCallback) => {
@@ -174,7 +178,7 @@ class Runtime {
       (ch, slot) => {
         self.rec('J', [slot])
         const n = mkNode('virtual', { slot })
-        n.children = self.createChildren(ch, slotValues)
+        n.children = self.createChildren(ch, undefined)
         out.push(n)
       },
       slotValues ? slotValues.values : undefined,
@@ -222,10 +226,10 @@ class Runtime {
         index += 1
         if (!n) return
         if (n.key === branchKey) {
-          self.updateChildren(branchFunc, n, slotValues)
+          self.updateChildren(branchFunc, n, undefined)
         } else {
           const nn = mkNode('if', { key: branchKey })
-          nn.children = self.createChildren(branchFunc, slotValues)
+          nn.children = self.createChildren(branchFunc, undefined)
           childNodes[index - 1] = nn
         }
       },
@@ -248,7 +252,7 @@ class Runtime {
         index += 1
         if (!n) return
         if (slot !== undefined) n.slot = slot
-        self.updateChildren(ch, n, slotValues)
+        self.updateChildren(ch, n, undefined)
       },
       slotValues ? slotValues.values : undefined,
       slotValues ? slotValues.trees : undefined,
